@@ -1,5 +1,5 @@
 CHECK = {
-    "suites": [suite("rounds", "c10", 1500, 30000, stdin=True)],
+    "suites": [suite("rounds", "c10", 1500, 150000, stdin=True)],
     "lean_sources": ["ClusterVerif/Model/Pin.lean", "ClusterVerif/Model/C04.lean", "ClusterVerif/Model/C10.lean", "ClusterVerif/Spec/C10.lean",
                      "ClusterVerif/Model/C03.lean", "ClusterVerif/Spec/C03.lean", "ClusterVerif/Lemmas/C10.lean"],
     "rule": "one case = one round over a shared pinset of 1-6 pins and 1-8 members: a ping alert for one member delivered to the real alertsHandler of every other "
